@@ -21,3 +21,27 @@ def structures_utils(env):
     dcda, dcdb = env.call(U.cross_d, a, b)
     env.eq("C01", "cross_d(a,b)[0] == d(a x b)/da", dcda, env.deriv(lambda t: xp.cross(t, b), a))
     env.eq("C01", "cross_d(a,b)[1] == d(a x b)/db", dcdb, env.deriv(lambda t: xp.cross(a, t), b))
+
+
+@job("helper.eval_mtx", ("C01", "C05"), ranges=[(r"^(r1|r2|r|u)", -1.5, 1.5)], cost=5)
+def eval_mtx_helpers(env):
+    """the vortex kernel helpers against their derivative helpers (chain rule with a direction matrix D)"""
+    import openaerostruct.aerodynamics.eval_mtx as E
+    xp = env.xp
+    r1 = env.var("r1", (3,))
+    r2 = env.var("r2", (3,))
+    D = env.var("D", (3, 3))
+    J1 = env.deriv(lambda t: E._compute_finite_vortex(t, r2), r1)
+    J2 = env.deriv(lambda t: E._compute_finite_vortex(r1, t), r2)
+    env.eq("C01", "_compute_finite_vortex_deriv1(r1,r2,D) == (d f/d r1) D", env.call(E._compute_finite_vortex_deriv1, r1, r2, D), xp.dot(J1, D) if not env.sym else _mm(J1, D))
+    env.eq("C01", "_compute_finite_vortex_deriv2(r1,r2,D) == (d f/d r2) D", env.call(E._compute_finite_vortex_deriv2, r1, r2, D), xp.dot(J2, D) if not env.sym else _mm(J2, D))
+    u = env.var("u", (3,))
+    r = env.var("r", (3,))
+    Jr = env.deriv(lambda t: E._compute_semi_infinite_vortex(u, t), r)
+    env.eq("C01", "_compute_semi_infinite_vortex_deriv(u,r,D) == (d f/d r) D", env.call(E._compute_semi_infinite_vortex_deriv, u, r, D), xp.dot(Jr, D) if not env.sym else _mm(Jr, D))
+
+
+def _mm(A, B):
+    from ..spshim import _mm as mm
+    from .. import term as S
+    return mm(S.lift(np.asarray(A, dtype=object)), S.lift(np.asarray(B, dtype=object)))
